@@ -164,6 +164,10 @@ STRUCT = {
     'eof-inside-end-delimiter-4': ["A\n", O('t', RT), "\nq", H(1, 'txt'), "\n", ('pc', 't', 4)],
     # an indented unwrap block whose body has a line starting at the left margin with blanks inside its text (columns of the dedent)
     'unwrap-body-line-left-of-tag-with-inner-blanks': ["A\n  ", O('m', RX + ' unwrap-block'), "\n  {\n    k;\n", H(1, 'ind'), "x", H(3, 'ind'), "= 1;\n    j;\n  }\n  ", C('m'), "\nB\n"],
+    'children-on-both-wrapper-lines-and-between': ["A\n", O('m', RX + ' unwrap-block'), "\nif (x) { ", O('t', RT), "a", C('t'), "\n", H(1, 'ind'), "k;\n", O('t', RT), "\nold;\n", C('t'),
+                                                   "\n} ", O('m', RX), "b", C('m'), H(1, 'sp'), "\n", C('m'), "\nB\n"],
+    'pending-children-on-both-wrapper-lines-and-between': ["A\n", O('m', PN + ' unwrap-block'), "\nif (x) { ", O('t', PT), "a", C('t'), "\n", H(1, 'ind'), "k;\n", O('t', PT), "\nold;\n", C('t'),
+                                                           "\n} ", O('m', PN), "b", C('m'), H(1, 'sp'), "\n", C('m'), "\nB\n", O('t', RT), "r", C('t'), "\n"],
     'unwrap-adjacent-lines': [H(1), "A ", O('m', RX + ' unwrap-block'), H(1, 'ind'), "\n", H(1, 'ind'), C('m'), " B", H(1)],
 }
 
@@ -308,6 +312,78 @@ def struct_jobs(prop, tier, seed, names=None, budget=None, max_active=None, limi
         for sizes in variants(STRUCT[name], budget, max_active, rnd2, 2):
             jobs.append(dict(harness='pipe_clean', label=f'{name} holes={sizes} ds={ds_!r} de={de_!r}',
                              params=dict(tpl=instantiate(STRUCT[name], sizes), prop=prop, ds=ds_, de=de_)))
+    return jobs
+
+
+# ---------------------------------------------------------------- template transformers
+# Every structural template can be bent systematically into the corner shapes that hand-written cases tend to miss: the document
+# ends with the last tag / starts with the first tag, the literal text is multi-byte, everything sits inside an element that removes
+# nothing on its own account, every tag carries quoted values holding the other quote character, lines end in CR LF.
+_MB = str.maketrans({'q': '語', 'k': 'é', 'x': 'ж', 'y': 'ü', 'A': 'Ä', 'B': 'ß', 'a': 'à', 'b': 'þ', 'c': 'ç', 'o': 'ö', 'f': 'ƒ', 'p': 'π', 'r': 'я', 'z': 'ž', 'j': 'ĳ'})
+
+
+def _is_tag(p_):
+    return isinstance(p_, tuple) and p_[0] in ('o', 'c', 'x', 'pc')
+
+
+def tf_eof(tpl):
+    idx = [i for i, p_ in enumerate(tpl) if _is_tag(p_)]
+    return tpl[:idx[-1] + 1] if idx else None
+
+
+def tf_bof(tpl):
+    idx = [i for i, p_ in enumerate(tpl) if _is_tag(p_)]
+    return tpl[idx[0]:] if idx else None
+
+
+def tf_multibyte(tpl):
+    return [p_.translate(_MB) if isinstance(p_, str) else p_ for p_ in tpl]
+
+
+def tf_wrap(kind):
+    wt, wa = {'skip': ('m', SK), 'pending': ('t', PT), 'unregistered': ('u', "k='v'"), 'ready-skip': ('t', RT + ' skip')}[kind]
+
+    def f(tpl):
+        return [O(wt, wa), "\n"] + list(tpl) + ["\n", C(wt), "\n"]
+    return f
+
+
+def tf_attr_noise(tpl):
+    out = []
+    for p_ in tpl:
+        if isinstance(p_, tuple) and p_[0] == 'o':
+            attrs = p_[2] if len(p_) > 2 else ''
+            out.append(('o', p_[1], ("d='x\"y' " + attrs + " c=\"it's\"").strip()))
+        else:
+            out.append(p_)
+    return out
+
+
+def tf_crlf(tpl):
+    return [p_.replace("\n", "\r\n") if isinstance(p_, str) else p_ for p_ in tpl]
+
+
+TRANSFORMERS = {'ends-with-last-tag': tf_eof, 'starts-with-first-tag': tf_bof, 'multi-byte-text': tf_multibyte, 'inside-skip': tf_wrap('skip'), 'inside-pending': tf_wrap('pending'),
+                'inside-unregistered': tf_wrap('unregistered'), 'inside-ready-skip': tf_wrap('ready-skip'), 'quoted-attribute-noise': tf_attr_noise,
+                'multi-byte-text+ends-with-last-tag': lambda t: tf_eof(tf_multibyte(t)), 'multi-byte-text+starts-with-first-tag': lambda t: tf_bof(tf_multibyte(t))}
+
+
+def transformed_jobs(prop, tier, seed, harness='pipe_clean', extra_params=None):
+    """STRUCT templates x TRANSFORMERS: a seeded sample in the quick tier (another VERIF_SEED, another sample), all of them in the thorough tier"""
+    rnd = random.Random(seed * 7919 + 13)
+    combos = [(n, t) for n in sorted(STRUCT) for t in sorted(TRANSFORMERS) if n not in FORCED_SPELLING]
+    if tier == 'quick':
+        combos = rnd.sample(combos, 48)
+    jobs = []
+    for n, t in combos:
+        tpl = TRANSFORMERS[t](STRUCT[n])
+        if not tpl:
+            continue
+        vs = variants(tpl, 3 if tier == 'quick' else 4, 2, rnd, 1 if tier == 'quick' else 3)
+        for sizes in vs:
+            params = dict(tpl=instantiate(tpl, sizes), prop=prop)
+            params.update(extra_params or {})
+            jobs.append(dict(harness=harness, label=f'{n} [{t}] holes={sizes}', params=params))
     return jobs
 
 
@@ -563,7 +639,8 @@ def c01_pipe_jobs(tier, seed):
             for cname, cfg in (cfgs[:2] if extra and tier != 'quick' else cfgs[:1]):
                 jobs.append(dict(harness='c01_pipe', label=f'{name} holes={sizes} cfg={cname}',
                                  params=dict(tpl=instantiate(tpl, sizes), cfg=cfg, wrapper='wrapper' in name)))
-    return jobs
+    tj = transformed_jobs('C01', tier, seed, harness='c01_pipe', extra_params=dict(cfg={}, wrapper=False))
+    return jobs + (tj[:24] if tier == 'quick' else tj)
 
 
 # ---------------------------------------------------------------- C06 marker / skip / tag-name decision
@@ -851,6 +928,8 @@ def c13_doc(p):
     tpl += [g('tag_i'), O('m', RX), "\n", g('c_i'), "x", g('c_t', 'nb'), "\n"]
     if p.get('inner'):   # a ready block nested in the ready block
         tpl += [g('in_i'), O('t', RT), "\n", "w\n", g('cin_i'), C('t'), "\n", "v\n"]
+    if p.get('eof_tag'):   # the document ends with the closing tag of the removed block (no line break behind it)
+        return tpl + [g('ctag_i'), C('m')]
     tpl += [g('ctag_i'), C('m'), "\n"]
     for i in range(p['a']):
         tpl += [g(f'al{i}'), "\n"]
@@ -896,6 +975,8 @@ def c13_block(ctx, p):
     got_all = split_lines(out)
     got = [l for l in got_all if B.strip(l)]
     ctx.check(lines_equal(got, in_lines), f'non-blank output lines {show_lines(got)} != surviving input lines {show_lines(in_lines)}', 'line-not-intact')
+    if p.get('eof_tag'):
+        return   # no surviving line behind the block: the residue clause does not apply
     # 2. blank-line residue between the neighbours of each removed block
     def blanks_between(k):
         """whitespace-only lines in the output between the k-th and (k+1)-th non-blank line"""
@@ -934,6 +1015,9 @@ def c13_jobs(tier, seed):
         J(f'nested ready block b={b} a={a}', a=a, b=b, inner=1, holes=dict(tag_i=1, in_i=2, cin_i=1))
         J(f'pending parent b={b} a={a}', a=a, b=b, parent=1, holes=dict(tag_i=2, a_i=2, z_i=1))
         J(f'no final newline b={b} a={a}', a=a, b=b, final_nl=0, holes=dict(z_t=2, z_i=1, al0=1 if a else 0))
+    for b in (0, 1):   # the closing tag is the last thing in the file, multi-byte text earlier
+        J(f'closing tag at end of input b={b}, multi-byte text before', a=0, b=b, eof_tag=1, holes=dict(a_t=3, ctag_i=1))
+        J(f'closing tag at end of input b={b}, multi-byte text inside', a=0, b=b, eof_tag=1, holes=dict(c_t=3, tag_i=1, a_t=1))
     return jobs
 
 
@@ -984,6 +1068,9 @@ HIST = {
     'markers-chain': ["A\n", O('m', "name='x'"), "\none\n", C('m'), "\n", H(2, 'ws'), O('m', "name='y'"), "\ntwo", H(1), "\n", C('m'), "\n", O('m', "name='z'"), "\nthree\n", C('m'), "\nB\n"],
     'marker-in-time': ["A", H(1, 'ws'), O('t', E2), H(1, 'ws'), O('m', "name='x'"), "q", C('m'), H(1, 'ws'), "r", C('t'), H(1, 'ws'), "B"],
     'inline-mix': [H(1), O('t', E1), "a", C('t'), H(2, 'ws'), O('t', E2), "b", C('t'), H(1)],
+    'unwrap-children-on-both-wrapper-lines-and-between': ["A\n", O('t', E2 + ' unwrap-block'), "\nif (x) { ", O('t', E1), "a", C('t'), "\n", H(1, 'ind'), "k;\n", O('t', E1), "\nold;\n", C('t'),
+                                                          "\n} ", O('t', E1), "b", C('t'), H(1, 'sp'), "\n", C('t'), "\nB\n"],
+    'unwrap-children-on-both-wrapper-lines': ["A\n", O('t', E2 + ' unwrap-block'), "\nif (x) { ", O('t', E1), "a", C('t'), H(1, 'sp'), "\n  k;\n} ", O('t', E1), "b", C('t'), "\n", C('t'), "\nB\n"],
     'pending-forever': ["A\n", O('t', E3), "\n", H(2, 'ws'), O('t', E1), "\nq\n", C('t'), "\n", H(1, 'ws'), C('t'), "\nB\n"],
 }
 CHAINS = [  # (first configuration, second configuration): time non-decreasing, target sets growing
